@@ -2669,3 +2669,26 @@ def dict_fromkeys(interp, st, args, kwargs, node):
     eq = SP.sp_maze_equal(interp, st, [src.get(j), src.get(k)], {}, node)
     keep = z3.Lambda([k], z3.And(k >= 0, k < n, z3.Not(z3.Exists([j], z3.And(j >= 0, j < k, to_z3(eq))))))
     return FiltList(src, keep)
+
+
+def rows_to_grid(interp, st, rows, node, oblige=True):
+    """np.array(list of k-vectors) as a proper (n, k) array: only right when the list is not empty (an obligation here)"""
+    M = _M()
+    lst = rows.src
+    if not isinstance(lst, SymList):
+        raise Outside("rows array over something other than a symbolic list", node)
+    n = lst.length
+    if oblige:
+        interp.ctx.oblige(st, to_z3(as_int(n)) > 0, f"rows-nonempty@{getattr(node, 'lineno', '?')}", node, "shape")
+    kq = z3.Int(V.fresh_name("rq"))
+    ek = lst.get(kq)
+    ak = ek if isinstance(ek, Arr) else Arr.from_nested(list(ek))
+
+    def fn(ix):
+        row = [z3.substitute(to_z3(v), (kq, ix[0])) for v in ak.flat]
+        out = row[-1]
+        for c in range(len(row) - 2, -1, -1):
+            out = z3.If(ix[1] == c, row[c], out)
+        return out
+
+    return M.grid_lambda([n, rows.width], ak.kind, fn)
